@@ -221,7 +221,15 @@ def run_mem(threads, schedule):
     sers = {"none": None, "tb": TRACEBACK_MESSAGE._serializer, "t0": types["t0"]._serializer, "t1": types["t1"]._serializer}
     s = LineScheduler(files=OUTPUT_FILES)
     logger = MemoryLogger()
-    logger._lock = _make_lock(s)
+    # replace the logger's lock, whatever attribute holds it (a rename must not turn into a hang)
+    import threading as _th
+    _replaced = False
+    for _name, _val in list(vars(logger).items()):
+        if isinstance(_val, type(_th.Lock())) or isinstance(_val, type(_th.RLock())):
+            setattr(logger, _name, _make_lock(s))
+            _replaced = True
+    if not _replaced:
+        logger._lock = _make_lock(s)
     spans = [[] for _ in threads]
 
     def build(call):
